@@ -454,6 +454,9 @@ def slot_expression(dc):
     raise AssertionError('assignment to ti not found in collect()')
 
 
+FLOORDIV_MAX = 16          # candidates for a floor-divided quotient (the slot items use at most 12 steps)
+
+
 def fp_term(node, t, dt):
     """binary64 semantics of the expression (round = ties-to-even like Python, int = truncation)"""
     import ast
@@ -464,6 +467,18 @@ def fp_term(node, t, dt):
         return dt
     if isinstance(node, ast.BinOp) and isinstance(node.op, ast.Div):
         return z3.fpDiv(z3.RNE(), fp_term(node.left, t, dt), fp_term(node.right, t, dt))
+    if isinstance(node, ast.BinOp) and isinstance(node.op, ast.FloorDiv):
+        # CPython float floor division of non-negative operands: fmod is exact, so a // b is floor of the EXACT quotient.
+        # Decided without rounding by comparing a with n*b in binary128 (both conversions and the products n*b, n small, are exact).
+        a, b = fp_term(node.left, t, dt), fp_term(node.right, t, dt)
+        Q = z3.FPSort(15, 113)
+        A, B = z3.fpFPToFP(z3.RNE(), a, Q), z3.fpFPToFP(z3.RNE(), b, Q)
+        out = z3.fpNaN(F)
+        for n in range(FLOORDIV_MAX, -1, -1):
+            lo = z3.fpMul(z3.RNE(), z3.FPVal(float(n), Q), B)
+            hi = z3.fpMul(z3.RNE(), z3.FPVal(float(n + 1), Q), B)
+            out = z3.If(z3.And(z3.fpGEQ(A, lo), z3.fpLT(A, hi)), z3.FPVal(float(n), F), out)
+        return out
     if isinstance(node, ast.Call) and isinstance(node.func, ast.Name) and node.func.id == 'round' and len(node.args) == 1:
         return z3.fpRoundToIntegral(z3.RNE(), fp_term(node.args[0], t, dt))
     if isinstance(node, ast.Call) and isinstance(node.func, ast.Name) and node.func.id == 'int' and len(node.args) == 1:
